@@ -1498,6 +1498,23 @@ func ruleC19HostLabel(c *Checker) {
 		if rej, _ := returnsNonNilErrorFrom(b.Succs[succ]); rej {
 			okLen = true
 		}
+		// … and the refusal does not itself run the conversion it is there to keep away from: nothing
+		// reached from the too-long edge calls the host type's display conversion
+		for blk := range reachFromEdge(Edge{b, succ}) {
+			for _, in := range blk.Instrs {
+				cl, ok := in.(*ssa.Call)
+				if !ok || cl.Call.IsInvoke() {
+					continue
+				}
+				g := cl.Common().StaticCallee()
+				if g == nil || p.InModule(g) || g.Signature.Recv() == nil || g.Pkg == nil || !strings.Contains(g.Pkg.Pkg.Path(), "svchost") {
+					continue
+				}
+				if g.Name() == "ForDisplay" {
+					c.fail(R, name, "display conversion on the refusing path", p.Pos(cl.Pos()), "the branch that refuses an over-long label calls the host's "+g.Name()+"() (to word the error): that is the conversion that panics for such a label, so the parser panics while composing its refusal")
+				}
+			}
+		}
 	}
 	c.check(okLen, R, name, "over-long label refused", p.Pos(split.Pos()), "len(label) > 63 leads to an error return", "no label of the host name is measured against the 63-byte limit with an error return behind it")
 }
